@@ -78,11 +78,14 @@ pub fn drive(cfg: &Cfg, schedule: &Schedule, n_in: usize) -> Result<StreamOut, S
     Ok(so)
 }
 
-fn max_abs_diff(a: &[f64], b: &[f64]) -> (f64, usize, usize) {
+fn max_abs_diff(a: &[f64], b: &[f64], skip: &dyn Fn(usize) -> bool) -> (f64, usize, usize) {
     let n = a.len().min(b.len());
     let mut worst = 0.0;
     let mut at = 0;
     for i in 0..n {
+        if skip(i) {
+            continue;
+        }
         let d = (a[i] - b[i]).abs();
         if !(d <= worst) {
             worst = d;
@@ -111,9 +114,9 @@ const C05_RATIOS: [f64; 9] = [0.25, 0.5, 0.8, 1.0, 1.2, 1.5, 2.0, 3.3, 147.0 / 1
 fn c05_fams(tier: Tier) -> Vec<Fam> {
     let q = tier == Tier::Quick;
     let mut v = Vec::new();
-    let ratios: Vec<f64> = if q { vec![0.5, 1.2, 147.0 / 160.0] } else { C05_RATIOS.to_vec() };
+    let ratios: Vec<f64> = if q { vec![0.25, 0.5, 1.0, 1.2, 3.3, 147.0 / 160.0] } else { C05_RATIOS.to_vec() };
     let sincs: Vec<(usize, usize, Interp)> = if q {
-        vec![(16, 16, Interp::Cubic), (16, 4, Interp::Nearest)]
+        vec![(16, 16, Interp::Cubic), (16, 16, Interp::Linear), (16, 4, Interp::Nearest), (64, 128, Interp::Quadratic)]
     } else {
         vec![
             (16, 16, Interp::Cubic),
@@ -124,7 +127,7 @@ fn c05_fams(tier: Tier) -> Vec<Fam> {
             (64, 128, Interp::Linear),
         ]
     };
-    let degrees: Vec<Degree> = if q { vec![Degree::Septic, Degree::Linear] } else { Degree::ALL.to_vec() };
+    let degrees: Vec<Degree> = Degree::ALL.to_vec();
     for &ratio in &ratios {
         for &(l, os, interp) in &sincs {
             v.push(Fam::Sinc { l, os, interp, ratio });
@@ -133,7 +136,7 @@ fn c05_fams(tier: Tier) -> Vec<Fam> {
             v.push(Fam::Fast { degree, ratio });
         }
     }
-    let maxrate = if q { 4 } else { 12 };
+    let maxrate = if q { 7 } else { 12 };
     for a in 1..=maxrate {
         for b in 1..=maxrate {
             v.push(Fam::Fft { rate_in: a, rate_out: b });
@@ -181,6 +184,22 @@ struct C05Acc {
     outcomes: Vec<String>,
 }
 
+/// Nearest-neighbour selection is discontinuous in the position: where the evaluation position
+/// lies within 1e-6 of a decision boundary (an integer for the polynomial types, half a
+/// sub-filter step for the sinc types) a rounding difference of the accumulated position
+/// legitimately selects the other neighbour. Those frames are excluded from the comparison.
+fn nearest_tie(cfg: &Cfg, j: usize) -> bool {
+    let pos = (j + 1) as f64 / cfg.ratio;
+    match cfg.kind {
+        Kind::FI | Kind::FO if cfg.degree == Degree::Nearest => (pos - pos.round()).abs() < 1e-6,
+        Kind::SI | Kind::SO if cfg.interp == Interp::Nearest => {
+            let x = pos * cfg.oversampling as f64 - 0.5;
+            (x - x.round()).abs() < 1e-6
+        }
+        _ => false,
+    }
+}
+
 fn c05_compare(acc: &mut C05Acc, cfg: &Cfg, sched: &Schedule, reference: &[f64], tol: f64, n_in: usize, journal: Option<&JournalFile>) -> Result<(), String> {
     if let Some(j) = journal {
         j.write(&cfg.to_json(), &format!("schedule {:?}", sched));
@@ -196,7 +215,7 @@ fn c05_compare(acc: &mut C05Acc, cfg: &Cfg, sched: &Schedule, reference: &[f64],
         }
         return Ok(());
     }
-    let (d, at, n) = max_abs_diff(&s.out, reference);
+    let (d, at, n) = max_abs_diff(&s.out, reference, &|j| nearest_tie(cfg, j));
     if n > 64 {
         acc.nontrivial += 1;
     }
@@ -350,6 +369,7 @@ impl Check for C05 {
     fn assumptions(&self) -> Vec<String> {
         vec![
             "linearity: a broadband pseudo-random signal exposes any lost, duplicated or stale frame as an O(1) difference".into(),
+            "nearest-neighbour modes: frames whose evaluation position lies within 1e-6 of a selection boundary are excluded (the selected neighbour legitimately depends on rounding of the accumulated position)".into(),
             "stream length 900-2500 input frames per run".into(),
         ]
     }
@@ -371,18 +391,15 @@ struct C07Item {
 
 fn c07_items(tier: Tier) -> Vec<C07Item> {
     let q = tier == Tier::Quick;
-    let closing: Vec<f64> = if q { vec![0.5, 1.0, 1.6, 4.0] } else { vec![1.0 / 16.0, 0.25, 0.5, 0.8, 1.0, 1.6, 2.0, 4.0, 16.0] };
-    let nonclosing: Vec<f64> = if q { vec![147.0 / 160.0] } else { vec![147.0 / 160.0, 160.0 / 147.0, 1.2, 0.3] };
-    let chunks: Vec<usize> = if q { vec![1, 7, 64] } else { vec![1, 2, 7, 8, 16, 64, 100] };
+    let closing: Vec<f64> = vec![1.0 / 16.0, 0.25, 0.5, 0.8, 1.0, 1.6, 2.0, 4.0, 16.0];
+    let nonclosing: Vec<f64> = if q { vec![147.0 / 160.0, 1.2] } else { vec![147.0 / 160.0, 160.0 / 147.0, 1.2, 0.3] };
+    let chunks: Vec<usize> = if q { vec![1, 2, 7, 64] } else { vec![1, 2, 7, 8, 16, 64, 100] };
     let mut items = Vec::new();
     for ratio in closing.iter().chain(nonclosing.iter()) {
         for &chunk in &chunks {
             let mut cfgs: Vec<(Cfg, Schedule)> = Vec::new();
             for kind in [Kind::SI, Kind::SO] {
                 for (l, os, interp) in [(8, 2, Interp::Cubic), (8, 2, Interp::Nearest), (16, 4, Interp::Linear), (16, 3, Interp::Quadratic), (64, 16, Interp::Nearest)] {
-                    if q && l == 64 {
-                        continue;
-                    }
                     let c = Cfg::sinc(kind, *ratio, 1.0, chunk, l, os, interp, Kernel::Probe);
                     cfgs.push((c.clone(), vec![]));
                     if chunk >= 7 {
@@ -401,8 +418,8 @@ fn c07_items(tier: Tier) -> Vec<C07Item> {
         }
     }
     // FFT: every rate pair x chunk x sub
-    let maxrate = if q { 5 } else { 12 };
-    let maxchunk = if q { 24 } else { 64 };
+    let maxrate = if q { 8 } else { 12 };
+    let maxchunk = if q { 32 } else { 64 };
     let mut pairs: Vec<(usize, usize)> = Vec::new();
     for a in 1..=maxrate {
         for b in 1..=maxrate {
